@@ -460,6 +460,8 @@ Definition go_print_text (mode : N) (ds : list pdir) (s : bstr) : bstr :=
 (* blocks, else-chains and case lists are types of their own (mutual with statements);
    by construction {else} is the last arm of an if and {default} the last case of a switch
    (the parser's shape after REPAIR C04-8), and a case has at least one value *)
+(* the data attribute of a call: none, data="all", data="$e" *)
+Inductive cdata := DNone | DAll | DExpr (e : cexpr).
 Inductive cstmt :=
 | SRaw (t : bstr)
 | SPrint (e : cexpr) (ds : list pdir)
@@ -471,10 +473,18 @@ Inductive cstmt :=
 | SForRange (x : bstr) (a1 : cexpr) (rest : list cexpr) (body : cblk) (hasie : bool) (ie : cblk)
     (* {for $x in range(a1, rest..)}body[{ifempty}ie]{/for}: one to three arguments *)
 | SCss (e : option cexpr) (sfx : bstr)                   (* {css sfx} / {css e, sfx} *)
+| SCall (name : bstr) (d : cdata) (ps : cparams)
+    (* {call name [data="all" | data="$e"]}{param k: e /}..{param k}..{/param}..{/call} *)
+| SMsg (body : cblk)
+    (* {msg desc=".."}text{$x}{call ..}..{/msg} without plural, rendered without a bundle: raw text and placeholders
+       (print, call) in the scope of the message; [msg_ok body] restricts the block to these *)
 with cblk := BNil | BCons (s : cstmt) (r : cblk)
 with celse := ENone | EElse (b : cblk) | EElif (c : cexpr) (th : cblk) (rest : celse)
-with ccases := KNone | KDefault (b : cblk) | KCase (v : cexpr) (vs : list cexpr) (b : cblk) (rest : ccases).
+with ccases := KNone | KDefault (b : cblk) | KCase (v : cexpr) (vs : list cexpr) (b : cblk) (rest : ccases)
+with cparams := PNil | PVal (k : bstr) (e : cexpr) (r : cparams) | PCont (k : bstr) (body : cblk) (r : cparams).
 
+Definition cdata_all (d : cdata) : bool := match d with DAll => true | _ => false end.
+Definition cdata_node (d : cdata) : option node := match d with DExpr e => Some (cnode e) | _ => None end.
 Fixpoint snode (s : cstmt) : node :=
   match s with
   | SRaw t => NRawText 0 t
@@ -488,6 +498,8 @@ Fixpoint snode (s : cstmt) : node :=
   | SForRange x a1 rest body hasie ie =>
       NFor 0 x (NFunc 0 jn_range (cnode a1 :: map cnode rest)) (NList 0 (bnodes body)) (if hasie then Some (NList 0 (bnodes ie)) else None)
   | SCss e sfx => NCss 0 (match e with Some x => Some (cnode x) | None => None end) sfx
+  | SCall name d ps => NCall 0 name (cdata_all d) (cdata_node d) (pnodes ps)
+  | SMsg body => NMsg 0 0 [] [] (mnodes body)
   end
 with bnodes (b : cblk) : list node :=
   match b with BNil => [] | BCons s r => snode s :: bnodes r end
@@ -502,10 +514,23 @@ with knodes (k : ccases) : list node :=
   | KNone => []
   | KDefault b => [NSwitchCase 0 [] (NList 0 (bnodes b))]
   | KCase v vs b rest => NSwitchCase 0 (cnode v :: map cnode vs) (NList 0 (bnodes b)) :: knodes rest
+  end
+(* the children of a message node: raw text as it is, everything else as the body of a placeholder *)
+with mnodes (b : cblk) : list node :=
+  match b with
+  | BNil => []
+  | BCons s r => (match s with SRaw t => NRawText 0 t | _ => NMsgPlaceholder 0 [] (snode s) end) :: mnodes r
+  end
+with pnodes (ps : cparams) : list node :=
+  match ps with
+  | PNil => []
+  | PVal k e r => NParamValue 0 k (cnode e) :: pnodes r
+  | PCont k body r => NParamContent 0 k (NList 0 (bnodes body)) :: pnodes r
   end.
 
 (* fuel that suffices for both walkers *)
 Definition cdepths (l : list cexpr) : nat := fold_right (fun x acc => Nat.max (cdepth x) acc) 0%nat l.
+Definition ddepth (d : cdata) : nat := match d with DExpr e => cdepth e | _ => 0%nat end.
 Fixpoint sdepth (s : cstmt) : nat :=
   match s with
   | SRaw _ => 1%nat
@@ -517,6 +542,8 @@ Fixpoint sdepth (s : cstmt) : nat :=
   | SFor _ e body _ ie => S (S (Nat.max (cdepth e) (Nat.max (bdepth body) (bdepth ie))))
   | SForRange _ a1 rest body _ ie => S (S (S (Nat.max (Nat.max (cdepth a1) (cdepths rest)) (Nat.max (bdepth body) (bdepth ie)))))
   | SCss e _ => S (S (match e with Some x => cdepth x | None => 0%nat end))
+  | SCall _ d ps => S (S (Nat.max (ddepth d) (pdepth ps)))
+  | SMsg body => S (bdepth body)
   end
 with bdepth (b : cblk) : nat :=
   match b with BNil => 0%nat | BCons s r => Nat.max (S (sdepth s)) (bdepth r) end
@@ -531,8 +558,22 @@ with kdepth (k : ccases) : nat :=
   | KNone => 0%nat
   | KDefault b => bdepth b
   | KCase v vs b rest => Nat.max (Nat.max (cdepth v) (cdepths vs)) (Nat.max (bdepth b) (kdepth rest))
+  end
+with pdepth (ps : cparams) : nat :=
+  match ps with
+  | PNil => 0%nat
+  | PVal _ e r => Nat.max (cdepth e) (pdepth r)
+  | PCont _ body r => Nat.max (bdepth body) (pdepth r)
   end.
 
+(* the data argument of a generated call: {} , opt_data, or an expression *)
+Inductive jdata := JDEmpty | JDOpt | JDExpr (e : jexpr).
+(* the statements a message can hold: raw text, print, call (they bind nothing) *)
+Fixpoint msg_ok (b : cblk) : bool :=
+  match b with
+  | BNil => true
+  | BCons s r => (match s with SRaw _ | SPrint _ _ | SCall _ _ _ => true | _ => false end) && msg_ok r
+  end.
 Inductive jstmt :=
 | JSAppendLit (buf t : bstr)                                   (* buf += 'text'; *)
 | JSAppend (buf : bstr) (e : jexpr)                            (* buf += e; *)
@@ -546,9 +587,21 @@ Inductive jstmt :=
     (* var vinit = ei; var vstep = es; var vlen = Math.max(0, Math.ceil((el - vinit) / vstep));
        [if (vlen > 0) {] for (var vidx = 0; vidx < vlen; vidx++) { var vd = vinit + vidx * vstep; body } [} else { ie }] *)
 | JSCss (buf : bstr) (e : option jexpr) (sfx : bstr)            (* [buf += e + '-';] buf += 'sfx'; *)
+| JSCall (buf name : bstr) (d : jdata) (ps : jparams)
+    (* [var param_n = ''; statements that append to param_n]*  (one group per content parameter, in order), then
+       buf += name(d, opt_sb, opt_ijData);   or   buf += name(soy.$$augmentMap(d, {k: e, k2: param_n, ..}), opt_sb, opt_ijData); *)
+| JSSeq (b : jblk)                                              (* the statements of b, one after the other (no braces) *)
 with jblk := JBNil | JBCons (s : jstmt) (r : jblk)
 with jelse := JLNone | JLElse (b : jblk) | JLElif (c : jexpr) (th : jblk) (rest : jelse)
-with jcases := JKNone | JKDefault (b : jblk) | JKCase (v : jexpr) (vs : list jexpr) (b : jblk) (rest : jcases).
+with jcases := JKNone | JKDefault (b : jblk) | JKCase (v : jexpr) (vs : list jexpr) (b : jblk) (rest : jcases)
+with jparams := JPNil | JPVal (k : bstr) (e : jexpr) (r : jparams) | JPCont (k g : bstr) (body : jblk) (r : jparams).
+(* the properties of the object literal: a content parameter is the variable its block appended to *)
+Fixpoint jp_args (ps : jparams) : list (bstr * jexpr) :=
+  match ps with
+  | JPNil => []
+  | JPVal k e r => (k, e) :: jp_args r
+  | JPCont k g _ r => (k, JEVar g) :: jp_args r
+  end.
 
 (* scope.go bind on the innermost frame (the generator crashes on an empty stack; never reached: a template
    body and every block push a frame) *)
@@ -571,6 +624,8 @@ Definition range_args {A} (zero one : A) (args : list A) : option (A * A * A) :=
 (* the generator on statements: for an autoescape mode and a buffer variable, from a scope and a variable counter
    to the statement, the scope after it (a let binds) and the counter (never reset: var is function-scoped).
    A block is translated under a new empty frame that is dropped at its end. *)
+Definition dgen (sc : list (list (bstr * bstr))) (d : cdata) : jdata :=
+  match d with DNone => JDEmpty | DAll => JDOpt | DExpr e => JDExpr (cgen sc e) end.
 Fixpoint sgen (mode : N) (buf : bstr) (sc : list (list (bstr * bstr))) (n : N) (s : cstmt)
   : jstmt * (list (list (bstr * bstr)) * N) :=
   match s with
@@ -604,6 +659,8 @@ Fixpoint sgen (mode : N) (buf : bstr) (sc : list (list (bstr * bstr))) (n : N) (
       (JSForRange (jsc_name x (n + 1)) (jsc_name (x ++ t_init) (n + 1)) (jsc_name (x ++ t_step) (n + 1)) (jsc_name (x ++ t_limit) (n + 1))
                   (jsc_name (x ++ t_index) (n + 1)) ei es el jb hasie ji, (sc, n2))
   | SCss e sfx => (JSCss buf (match e with Some x => Some (cgen sc x) | None => None end) sfx, (sc, n))
+  | SCall name d ps => let '(jps, n1) := pgen mode sc n ps in (JSCall buf name (dgen sc d) jps, (sc, n1))
+  | SMsg body => let '(jb, n1) := bgen mode buf sc n body in (JSSeq jb, (sc, n1))     (* no new frame; the statements of a message bind nothing *)
   end
 with bgen (mode : N) (buf : bstr) (sc : list (list (bstr * bstr))) (n : N) (b : cblk) : jblk * N :=
   match b with
@@ -630,6 +687,17 @@ with kgen (mode : N) (buf : bstr) (sc : list (list (bstr * bstr))) (n : N) (k : 
       let '(jb, n1) := bgen mode buf ([] :: sc) n b in
       let '(jr, n2) := kgen mode buf sc n1 rest in
       (JKCase (cgen sc v) (map (cgen sc) vs) jb jr, n2)
+  end
+with pgen (mode : N) (sc : list (list (bstr * bstr))) (n : N) (ps : cparams) : jparams * N :=
+  match ps with
+  | PNil => (JPNil, n)
+  | PVal k e r => let '(jr, n1) := pgen mode sc n r in (JPVal k (cgen sc e) jr, n1)
+  | PCont k body r =>
+      (* a generated, unbound name param_<n+1> is the buffer of the block *)
+      let g := jsc_name t_param (n + 1) in
+      let '(jb, n1) := bgen mode g ([] :: sc) (n + 1) body in
+      let '(jr, n2) := pgen mode sc n1 r in
+      (JPCont k g jb jr, n2)
   end.
 
 (* ---- the JavaScript meaning ---- *)
@@ -702,6 +770,35 @@ Definition js_range_count (l a s : Z) : outcome jval :=
   if (s =? 0)%Z then OutOfModel
   else if small (l - a) then js_num (Z.max 0 (- ((- (l - a)) / s))) else OutOfModel.
 
+(* soy.$$augmentMap(base, {k: v, ..}): an object whose own properties are the additional ones and whose prototype is
+   base; reading a property gives the additional value, else base's: on association lists, an update of base *)
+Definition js_augment (base : jval) (kvs : list (bstr * jval)) : outcome jval :=
+  match base with
+  | JObj m => Ok (JObj (fold_left (fun acc kv => aset acc (fst kv) (snd kv)) kvs m))
+  | _ => OutOfModel
+  end.
+Fixpoint js_eval_params (env : jenv) (ps : list (bstr * jexpr)) : outcome (list (bstr * jval)) :=
+  match ps with
+  | [] => Ok []
+  | (k, e) :: r => v <- js_eval env e ;; vs <- js_eval_params env r ;; Ok ((k, v) :: vs)
+  end.
+(* the data argument of a call *)
+Definition js_call_data (env : jenv) (d : jdata) (ps : list (bstr * jexpr)) : outcome jval :=
+  base <- match d with
+          | JDEmpty => Ok (JObj [])
+          | JDOpt => Ok (je_data env)
+          | JDExpr e => js_eval env e
+          end ;;
+  match ps with
+  | [] => Ok base
+  | _ => vs <- js_eval_params env ps ;; js_augment base vs
+  end.
+Definition js_ij_arg (env : jenv) : jval := match assoc_s t_opt_ij (je_vars env) with Some v => v | None => JUndef end.
+
+Section JsExec.
+(* calling the global function [name] with (data, opt_sb, ijData): the string it returns *)
+Variable jcall : bstr -> jval -> jval -> outcome bstr.
+
 (* var is function-scoped: a block does not restore anything *)
 Fixpoint js_exec (env : jenv) (s : jstmt) : outcome jenv :=
   match s with
@@ -747,6 +844,12 @@ Fixpoint js_exec (env : jenv) (s : jstmt) : outcome jenv :=
               | None => Ok env
               end ;;
       js_append_text env1 buf sfx
+  | JSCall buf name d ps =>
+      env1 <- jp_exec env ps ;;
+      dv <- js_call_data env1 d (jp_args ps) ;;
+      r <- jcall name dv (js_ij_arg env1) ;;
+      js_append_text env1 buf r
+  | JSSeq b => jb_exec env b
   end
 with jb_exec (env : jenv) (b : jblk) : outcome jenv :=
   match b with JBNil => Ok env | JBCons s r => env' <- js_exec env s ;; jb_exec env' r end
@@ -761,7 +864,14 @@ with jk_exec (env : jenv) (sv : jval) (k : jcases) : outcome jenv :=
   | JKNone => Ok env
   | JKDefault b => jb_exec env b
   | JKCase v vs b rest => h <- jk_hit env sv (v :: vs) ;; if h then jb_exec env b else jk_exec env sv rest
+  end
+with jp_exec (env : jenv) (ps : jparams) : outcome jenv :=
+  match ps with
+  | JPNil => Ok env
+  | JPVal _ _ r => jp_exec env r
+  | JPCont _ g body r => env1 <- jb_exec (jvset env g (JStr [])) body ;; jp_exec env1 r
   end.
+End JsExec.
 
 (* ---- the Soy meaning: the bytes written and the environment afterwards (None = an error, or outside the subset) ---- *)
 Definition scalar_string (v : value) : option bstr :=
@@ -789,6 +899,20 @@ Section Sout.
   Variable ij : option value.
   Variable mode : N.
   Variable print_text : N -> list pdir -> bstr -> bstr.      (* go_print_text of Proofs/MiniJSStmt.v *)
+  Variable denv : bstr -> option value.                      (* the data of the template being rendered (what data="all" passes on) *)
+  Variable callee : bstr -> (bstr -> option value) -> option bstr.   (* the text a template writes for given data *)
+
+  Definition cdata_env (env : bstr -> option value) (d : cdata) : option (bstr -> option value) :=
+    match d with
+    | DNone => Some (fun _ => None)
+    | DAll => Some denv
+    | DExpr e =>
+        (* the keys of the map are identifiers (a key such as x.index would shadow the renderer's hidden loop variables) *)
+        match ceval ij env e with
+        | Some (VMap _ m) => if forallb (fun kv => is_ident (fst kv)) m then Some (fun k => assoc_s k m) else None
+        | _ => None
+        end
+    end.
 
   (* does one of the case values equal the switch value (all of them primitive) *)
   Fixpoint khit (env : bstr -> option value) (sv : value) (vs : list cexpr) : option bool :=
@@ -901,6 +1025,16 @@ Section Sout.
             | None => None
             end
         end
+    | SCall name d ps =>
+        match cdata_env env d with
+        | Some base =>
+            match pout env ps base with
+            | Some cenv => match callee name cenv with Some t => Some (t, env) | None => None end
+            | None => None
+            end
+        | None => None
+        end
+    | SMsg body => if msg_ok body then match bout env body with Some t => Some (t, env) | None => None end else None
     end
   with bout (env : bstr -> option value) (b : cblk) : option bstr :=
     match b with
@@ -930,6 +1064,17 @@ Section Sout.
         | Some false => kout env sv rest
         | None => None
         end
+    end
+  (* the parameters of a call, evaluated / rendered in the caller's environment, over the data passed *)
+  with pout (env : bstr -> option value) (ps : cparams) (acc : bstr -> option value) : option (bstr -> option value) :=
+    match ps with
+    | PNil => Some acc
+    | PVal k e r =>
+        if is_ident k then match ceval ij env e with Some v => pout env r (env_set acc k v) | None => None end
+        else None
+    | PCont k body r =>
+        if is_ident k then match bout env body with Some t => pout env r (env_set acc k (VStr t)) | None => None end
+        else None
     end.
 End Sout.
 
@@ -939,6 +1084,18 @@ Fixpoint jk_values (ind : nat) (vs : list jexpr) : list chunk :=
   match vs with
   | [] => []
   | v :: r => sp_ind ind ++ [CText t_case] ++ jprint v ++ [CText t_colon; CText t_nl] ++ jk_values ind r
+  end.
+Definition jd_print (d : jdata) : list chunk :=
+  match d with JDEmpty => [CText t_empty_obj] | JDOpt => [CText t_opt_data] | JDExpr e => jprint e end.
+Fixpoint jps_print (first : bool) (ps : list (bstr * jexpr)) : list chunk :=
+  match ps with
+  | [] => []
+  | (k, e) :: r => (if first then [] else [CText t_comma_sp]) ++ [CName k; CText t_colon_sp] ++ jprint e ++ jps_print false r
+  end.
+Definition jcall_arg (d : jdata) (ps : list (bstr * jexpr)) : list chunk :=
+  match ps with
+  | [] => jd_print d
+  | _ => [CText t_augment] ++ jd_print d ++ [CText t_augment_mid] ++ jps_print true ps ++ [CText t_augment_end]
   end.
 Fixpoint sprint (ind : nat) (s : jstmt) : list chunk :=
   match s with
@@ -979,6 +1136,10 @@ Fixpoint sprint (ind : nat) (s : jstmt) : list chunk :=
        | None => []
        end)
       ++ [CText (indent_text ind); CName buf; CText t_pluseq; CStrLit 39 sfx; CText t_semi_nl]
+  | JSCall buf name d ps =>
+      pprint ind ps
+      ++ sp_ind ind ++ ([CName buf; CText t_pluseq; CName name; CText t_lpar] ++ jcall_arg d (jp_args ps) ++ [CText t_call_tail]) ++ [CText t_nl]
+  | JSSeq b => bprint ind b
   end
 with bprint (ind : nat) (b : jblk) : list chunk :=
   match b with JBNil => [] | JBCons s r => sprint ind s ++ bprint ind r end
@@ -997,6 +1158,13 @@ with kprint (ind : nat) (k : jcases) : list chunk :=
       sp_ind ind ++ [CText t_default; CText t_nl] ++ bprint (S ind) b ++ sp_ind (S ind) ++ [CText t_break; CText t_nl]
   | JKCase v vs b rest =>
       jk_values ind (v :: vs) ++ bprint (S ind) b ++ sp_ind (S ind) ++ [CText t_break; CText t_nl] ++ kprint ind rest
+  end
+(* the statements of the content parameters, before the call *)
+with pprint (ind : nat) (ps : jparams) : list chunk :=
+  match ps with
+  | JPNil => []
+  | JPVal _ _ r => pprint ind r
+  | JPCont _ g body r => (sp_ind ind ++ [CText t_var; CName g; CText t_eq_empty] ++ [CText t_nl]) ++ bprint ind body ++ pprint ind r
   end.
 
 (* ---- static condition for the generator: loop functions talk about enclosing loops, binders are identifiers ---- *)
@@ -1012,6 +1180,8 @@ Fixpoint swf (lv : list bstr) (s : cstmt) : bool :=
   | SForRange x a1 rest body _ ie =>
       is_ident x && (Nat.leb (length rest) 2) && cwf lv a1 && forallb (cwf lv) rest && bwf (x :: lv) body && bwf lv ie
   | SCss e _ => match e with Some x => cwf lv x | None => true end
+  | SCall _ d ps => (match d with DExpr e => cwf lv e | _ => true end) && pwf lv ps
+  | SMsg body => msg_ok body && bwf lv body
   end
 with bwf (lv : list bstr) (b : cblk) : bool :=
   match b with BNil => true | BCons s r => swf lv s && bwf lv r end
@@ -1026,4 +1196,10 @@ with kwf (lv : list bstr) (k : ccases) : bool :=
   | KNone => true
   | KDefault b => bwf lv b
   | KCase v vs b rest => cwf lv v && forallb (cwf lv) vs && bwf lv b && kwf lv rest
+  end
+with pwf (lv : list bstr) (ps : cparams) : bool :=
+  match ps with
+  | PNil => true
+  | PVal _ e r => cwf lv e && pwf lv r
+  | PCont _ body r => bwf lv body && pwf lv r
   end.
